@@ -165,6 +165,9 @@ func c18CheckHistory(c c18HCase) h.Result {
 	r.Eval(rep.Linearized + rep.InvariantsOK)
 	// evidence: how much real overlap and how many evictions the runs had
 	r.Class(C18CPUBucket(rep.MaxRepCPUms))
+	if rep.PutReplaces > 0 {
+		r.Class("put-on-resident-key:replaces-value(histories explained only that way)")
+	}
 	r.Class("overlap-pairs(max over reps):"+c18Bucket(rep.MaxOverlap), "evictions(min over reps):"+c18Bucket(rep.MinEvict))
 	switch {
 	case rep.RepsOverlap == 0:
@@ -443,14 +446,22 @@ func TestC18ChildHistory(t *testing.T) {
 		rep.InvariantsOK++
 		ok, ev := c18CheckPorcupine(c.Cap, hist)
 		if !ok {
-			if c18CheckBrute(c.Cap, hist) {
-				// the two checkers disagree: a tool problem, never an alarm
-				fmt.Printf("VERIF-HARNESS-ERROR c18: porcupine refused a history that the brute-force checker accepts:\n%s\n", c18DumpHistory(hist))
-				t.FailNow()
+			// not explained with "Put keeps the resident value": try "Put replaces it"
+			c18PutReplaces = true
+			ok, ev = c18CheckPorcupine(c.Cap, hist)
+			bruteReplace := ok || c18CheckBrute(c.Cap, hist)
+			c18PutReplaces = false
+			if !ok {
+				if bruteReplace || c18CheckBrute(c.Cap, hist) {
+					// the two checkers disagree: a tool problem, never an alarm
+					fmt.Printf("VERIF-HARNESS-ERROR c18: porcupine refused a history that the brute-force checker accepts:\n%s\n", c18DumpHistory(hist))
+					t.FailNow()
+				}
+				rep.Viol = &C18Viol{Sig: "lruCache:history-not-linearizable",
+					Detail: fmt.Sprintf("capacity %d, repetition %d: no sequential LRU execution explains this history under either value policy of Put (porcupine and the brute-force checker agree); [call,return] are logical clock stamps:\n%s", c.Cap, i, c18DumpHistory(hist))}
+				break
 			}
-			rep.Viol = &C18Viol{Sig: "lruCache:history-not-linearizable",
-				Detail: fmt.Sprintf("capacity %d, repetition %d: no sequential LRU execution explains this history (porcupine and the brute-force checker agree); [call,return] are logical clock stamps:\n%s", c.Cap, i, c18DumpHistory(hist))}
-			break
+			rep.PutReplaces++
 		}
 		rep.Linearized++
 		if ev < 0 {
